@@ -41,6 +41,8 @@ struct Local {
     mutated: u64,
     valid: u64,
     cutsets: u64,
+    many_runs: u64,
+    many_ok_values: u64,
     targets: BTreeMap<&'static str, u64>,
 }
 
@@ -73,6 +75,28 @@ pub fn compare(ops: &TypeOps, doc: &str, cuts: &[usize]) -> Result<bool, String>
         (Ok(x), Err(e)) => Err(format!("{}: from_str gives Ok({}) but from_reader (cuts {:?}) fails with {}: {}", ops.name, x.dbg(), &cuts[..cuts.len().min(12)], e.kind, e.msg)),
         (Err(e), Ok(y)) => Err(format!("{}: from_str fails with {}: {} but from_reader (cuts {:?}) gives Ok({})", ops.name, e.kind, e.msg, &cuts[..cuts.len().min(12)], y.dbg())),
     }
+}
+
+/// Several values in a row from one deserializer (`Deserializer::from_str` / `from_reader` driven by hand)
+/// over documents written one after the other, until the first error: the two entry points must agree on
+/// every result (so also on where the first error is).
+pub fn compare_many(ops: &TypeOps, docs: &str, n: usize, cuts: &[usize]) -> Result<u64, String> {
+    let a = guarded(|| (ops.de_str_many)(docs, n)).map_err(|p| format!("Deserializer::from_str panicked: {}", p))?;
+    let b = guarded(|| (ops.de_reader_many)(ChunkedRead::new(docs.as_bytes(), cuts.to_vec()), n)).map_err(|p| format!("Deserializer::from_reader panicked: {}", p))?;
+    let mut oks = 0;
+    if a.len() != b.len() {
+        return Err(format!("{}: from one deserializer from_str gives {} result(s) up to its first error but from_reader (cuts {:?}) gives {}", ops.name, a.len(), &cuts[..cuts.len().min(12)], b.len()));
+    }
+    for (i, (x, y)) in a.iter().zip(b.iter()).enumerate() {
+        match (x, y) {
+            (Ok(x), Ok(y)) if x.eq_val(y.as_ref()) => oks += 1,
+            (Err(_), Err(_)) => {}
+            (Ok(x), Ok(y)) => return Err(format!("{}: value {} of {} from one deserializer: from_str gives {} but from_reader (cuts {:?}) gives {}", ops.name, i, n, x.dbg(), &cuts[..cuts.len().min(12)], y.dbg())),
+            (Ok(x), Err(e)) => return Err(format!("{}: value {} of {} from one deserializer: from_str gives Ok({}) but from_reader (cuts {:?}) fails with {}: {}", ops.name, i, n, x.dbg(), &cuts[..cuts.len().min(12)], e.kind, e.msg)),
+            (Err(e), Ok(y)) => return Err(format!("{}: value {} of {} from one deserializer: from_str fails with {}: {} but from_reader (cuts {:?}) gives Ok({})", ops.name, i, n, e.kind, e.msg, &cuts[..cuts.len().min(12)], y.dbg())),
+        }
+    }
+    Ok(oks)
 }
 
 fn run_doc(ctx: &mut Ctx, loc: &mut Local, all: &[TypeOps], doc: &str, own: usize, r: &mut Rng) -> bool {
@@ -136,6 +160,29 @@ fn run_doc(ctx: &mut Ctx, loc: &mut Local, all: &[TypeOps], doc: &str, own: usiz
             }
         }
     }
+    // the document twice (and a third read past the end) from one deserializer
+    if !doc.starts_with('\u{FEFF}') && r.chance(1, 4) {
+        let sep = *r.pick(&["", "\n", " <!--between--> ", "<?pi?>"]);
+        let docs = format!("{}{}{}", doc, sep, doc);
+        let ops = &all[own];
+        for piece in [0usize, 1, 5] {
+            let cuts = if piece == 0 { vec![] } else { cuts_for_piece(docs.len(), piece, 0) };
+            let case = json!({"document": docs, "target": ops.name, "cuts": cuts, "values": 3});
+            ctx.journal(|| case.clone());
+            match compare_many(ops, &docs, 3, &cuts) {
+                Ok(n) => {
+                    loc.many_runs += 1;
+                    loc.many_ok_values += n;
+                }
+                Err(d) => {
+                    ctx.violation(case, d);
+                    if ctx.full() {
+                        return false;
+                    }
+                }
+            }
+        }
+    }
     ctx.sample(|| json!({"document": doc.chars().take(200).collect::<String>(), "own_type": all[own].name}));
     true
 }
@@ -188,6 +235,8 @@ fn run(ctx: &mut Ctx) {
     ctx.add("docs.mutated", loc.mutated);
     ctx.add("docs.valid", loc.valid);
     ctx.add("cutsets", loc.cutsets);
+    ctx.add("runs_reading_three_values_from_one_deserializer", loc.many_runs);
+    ctx.add("values_agreeing_ok_in_those_runs", loc.many_ok_values);
     for (k, v) in &loc.targets {
         ctx.add(&format!("target.{}", k), *v);
     }
@@ -197,5 +246,8 @@ fn replay(case: &Value, _ctx: &mut Ctx) -> Option<String> {
     let all = all_targets();
     let ops = all.iter().find(|o| o.name == case["target"].as_str().unwrap_or(""))?;
     let cuts: Vec<usize> = case["cuts"].as_array().map(|a| a.iter().map(|x| x.as_u64().unwrap_or(0) as usize).collect()).unwrap_or_default();
+    if let Some(n) = case["values"].as_u64() {
+        return compare_many(ops, case["document"].as_str().unwrap_or(""), n as usize, &cuts).err();
+    }
     compare(ops, case["document"].as_str().unwrap_or(""), &cuts).err()
 }
